@@ -698,7 +698,7 @@ class Matcher:
             sts.add(id(n))
         return len(sts)
 
-    def all_of(self, patterns, binds: dict | None = None, _depth: int = 0) -> tuple[bool, str]:
+    def all_of(self, patterns, binds: dict | None = None, _depth: int = 0, _budget: list | None = None) -> tuple[bool, str]:
         """Every pattern occurs, with one consistent binding of the shared metavariables (backtracking over candidates)."""
         pats = [p if isinstance(p, Pattern) else Pattern(p) for p in patterns]
 
@@ -718,7 +718,9 @@ class Matcher:
             return True, ""
         # virtual temporaries: a pattern `$v = E` names an intermediate value.  When the code does not keep that value in a variable of its own
         # (`return tuple(a), tuple(b)` instead of `x = tuple(a); y = tuple(b); return x, y`) the other patterns are tried with `$v` replaced by `(E)`.
-        if _depth < 6 and all(isinstance(p, str) or isinstance(p, Pattern) for p in patterns):
+        if _budget is None:
+            _budget = [16]  # virtual-temporary retries per top-level question (each retry is a full backtracking search; the recursion is otherwise exponential)
+        if _depth < 6 and _budget[0] > 0 and all(isinstance(p, str) or isinstance(p, Pattern) for p in patterns):
             srcs = [p.src if isinstance(p, Pattern) else p for p in patterns]
             for i, ps in enumerate(srcs):
                 # `$a, $b = ($X, $Y)` (an alias pair): the same with each target replaced by its component
@@ -727,8 +729,11 @@ class Matcher:
                     v1, v2, e1, e2 = mt.groups()
                     others = [re.sub(r"(?<!\$)\$" + v2 + r"\b", lambda _m: e2, re.sub(r"(?<!\$)\$" + v1 + r"\b", lambda _m: e1, q))
                               for j, q in enumerate(srcs) if j != i]
+                    _budget[0] -= 1
+                    if _budget[0] < 0:
+                        break
                     try:
-                        ok2, _w = self.all_of(others, binds, _depth=_depth + 1)
+                        ok2, _w = self.all_of(others, binds, _depth=_depth + 1, _budget=_budget)
                     except (SyntaxError, ValueError):
                         ok2 = False
                     if ok2:
@@ -745,8 +750,11 @@ class Matcher:
                 others = [re.sub(r"(?<!\$)\$" + v + r"\b", lambda _m: "(" + e + ")", q) for j, q in enumerate(srcs) if j != i]
                 if others == [q for j, q in enumerate(srcs) if j != i]:
                     continue  # nobody uses it
+                _budget[0] -= 1
+                if _budget[0] < 0:
+                    break
                 try:
-                    ok2, why2 = self.all_of(others, binds, _depth=_depth + 1)
+                    ok2, why2 = self.all_of(others, binds, _depth=_depth + 1, _budget=_budget)
                 except (SyntaxError, ValueError):
                     continue
                 if ok2:
